@@ -304,6 +304,11 @@ def all_cases(tier, seed):
         for r in (1, 2):
             for sub in itertools.combinations(shapes, r):
                 cases.append((dict(family='ET', tag=tag, power=p, refused=(), battery_mode=2, refused_requests=sub), 'udp'))
+    # every value the battery-mode word can take (the library asks only whether it is zero), with and without refusals
+    for tag, p in (('ETU', 3000), ('ETT', 10000), ('25KET', 25000)):
+        for bm in (1, 3, 4, 5, 6, 0x7FFF, 0xFFFF):
+            for rf in ((), ('battery',), ('battery2',)):
+                cases.append((dict(family='ET', tag=tag, power=p, refused=rf, battery_mode=bm), 'udp'))
     # the firmware version words of the device info, swept one at a time (no branch of the poll may hang on them)
     from ..configs import firmware_configs
     for c in firmware_configs():
